@@ -97,6 +97,9 @@ func (fr *Frame) poolGet(p *PoolDecl, pool *Val, st *State, pos token.Pos) *Val 
 		if _, isSl := t.Underlying().(*types.Slice); isSl {
 			a := e.allocRef(st, "pooledarr")
 			e.assume(st.pc, sAnd(e.wf(t, v, e.next(st)), "(= (s-arr "+v+") "+a+")", "(= (s-off "+v+") 0)"))
+			if e.ownerOn() {
+				e.setOwner(st, a, "1")
+			}
 		} else {
 			e.assume(st.pc, e.wf(t, v, e.next(st)))
 		}
@@ -171,7 +174,39 @@ func (fr *Frame) ownerEntry(st *State, args []*Val) {
 	}
 }
 
-func (fr *Frame) ownerExit(out *State, res []*Val) {}
+// ownerExit: no heap location written by the function may still hold a caller-owned byte array.
+func (fr *Frame) ownerExit(out *State, res []*Val) {
+	e := fr.e
+	seen := map[string]bool{}
+	ow := e.get(out, "Owner", "(Array Int Int)")
+	for _, rs := range e.retained {
+		k := rs.loc.Comp + "|" + rs.loc.Base + "|" + rs.loc.Idx + "|" + rs.pc
+		if seen[k] || len(rs.loc.Path) > 0 {
+			continue
+		}
+		seen[k] = true
+		v := e.locRead(out, rs.loc)
+		o := e.oblige("owner", "no caller buffer retained in "+rs.desc, sAnd(out.pc, rs.pc),
+			sOr("(= (s-arr "+v+") 0)", "(= "+sSel(ow, "(s-arr "+v+")")+" 1)"), nil, rs.pos, "a heap location written by this call still refers to a caller-owned array at return")
+		_ = o
+	}
+}
+
+type retainedStore struct {
+	loc  *Loc
+	desc string
+	pos  token.Pos
+	pc   string
+}
+
+// ownerAfterCall: arrays allocated by a callee under contract are engine-owned; ownership of existing arrays is unchanged.
+func (e *Enc) ownerAfterCall(st *State, pc, nxBefore string) {
+	old := e.get(st, "Owner", "(Array Int Int)")
+	n := e.havocComp(st, "Owner", "(Array Int Int)")
+	e.ctr++
+	q := fmt.Sprintf("ow!%d", e.ctr)
+	e.assume(pc, fmt.Sprintf("(forall ((%s Int)) (! (= (select %s %s) (ite (< %s %s) (select %s %s) 1)) :pattern ((select %s %s))))", q, n, q, q, nxBefore, old, q, n, q))
+}
 
 func isByteSlice(t types.Type) bool {
 	s, ok := t.Underlying().(*types.Slice)
